@@ -327,6 +327,8 @@ impl<B: Region> BlockPool<B> {
     /// Push a block to the thread-local queue
     pub fn push(&self, block: B) {
         self.count.fetch_add(1, Ordering::SeqCst);
+        #[cfg(feature = "mmtk_verif")]
+        crate::verif::gc::yp(crate::verif::gc::Site::BlockPoolPush);
         let id = crate::scheduler::current_worker_ordinal();
         let failed = unsafe {
             self.worker_local_freed_blocks[id]
@@ -348,14 +350,20 @@ impl<B: Region> BlockPool<B> {
         if self.len() == 0 {
             return None;
         }
+        #[cfg(feature = "mmtk_verif")]
+        crate::verif::gc::yp(crate::verif::gc::Site::BlockPoolPop);
         let head_global_freed_blocks = self.head_global_freed_blocks.upgradeable_read();
         if let Some(block) = head_global_freed_blocks.as_ref().and_then(|q| q.pop()) {
+            #[cfg(feature = "mmtk_verif")]
+            crate::verif::gc::yp(crate::verif::gc::Site::BlockPoolPop);
             self.count.fetch_sub(1, Ordering::SeqCst);
             Some(block)
         } else {
             let mut global_freed_blocks = self.global_freed_blocks.write();
             // Retry fast-alloc
             if let Some(block) = head_global_freed_blocks.as_ref().and_then(|q| q.pop()) {
+                #[cfg(feature = "mmtk_verif")]
+                crate::verif::gc::yp(crate::verif::gc::Site::BlockPoolPop);
                 self.count.fetch_sub(1, Ordering::SeqCst);
                 return Some(block);
             }
@@ -370,6 +378,8 @@ impl<B: Region> BlockPool<B> {
                     .unwrap_or(true));
                 *head_global_freed_blocks = Some(blocks);
             }
+            #[cfg(feature = "mmtk_verif")]
+            crate::verif::gc::yp(crate::verif::gc::Site::BlockPoolPop);
             self.count.fetch_sub(1, Ordering::SeqCst);
             Some(block)
         }
